@@ -332,7 +332,7 @@ func TestPoisonInRouter(t *testing.T) {
 			eText = e.Error()
 		}
 		hname := rapid.SampledFrom([]string{"h", "", "poisoned-handler"}).Draw(t, "handlerName")
-		topic := rapid.SampledFrom([]string{"in", "", "t/1"}).Draw(t, "subscribeTopic")
+		topic := rapid.SampledFrom([]string{"in", "", "t/1", "poison"}).Draw(t, "subscribeTopic")
 		sub := lib.NewScriptSub(rapid.SampledFrom([]string{"", "my-sub"}).Draw(t, "subName"))
 		pub := lib.NewScriptPub("")
 		var d *lib.Delivery
